@@ -218,14 +218,19 @@ theorem frameI_of_frameP (S : Schema) (dec : Dec) (n : Nat) (hP : FrameP S dec n
       · rename_i name sitems
         split at h
         · simp at h
-        · split at h
+        · dsimp only at h
+          split at h
           · simp at h
           · rename_i st1 hsec
             rw [ih _ _ st' set' h q hrest]
-            apply hP.2 _ _ _ _ _ hsec q
-            intro hpre
-            obtain ⟨more, hmore⟩ := prefix_sub hpre
-            exact hq name more (Or.inr ⟨_, List.mem_cons_self, rfl⟩) hmore
+            have hnp : ¬ sub path name <+: q := by
+              intro hpre
+              obtain ⟨more, hmore⟩ := prefix_sub hpre
+              exact hq name more (Or.inr ⟨_, List.mem_cons_self, rfl⟩) hmore
+            rw [hP.2 _ _ _ _ _ hsec q hnp]
+            split
+            · exact Store.get?_put_ne _ _ (fun e => hnp (e ▸ List.prefix_refl _))
+            · rfl
       · rename_i fs out
         split at h
         · have hr : sub path "#rules".toList ≠ q := by
@@ -372,13 +377,6 @@ theorem decodeSpecs_frame (S : Schema) (dec : Dec) (fuel : Nat) (ss : List ASect
         split
         · rw [Store.get?_put_ne _ _ hso', hsec _ _ _ _ _ hs q hq0]
         · exact hsec _ _ _ _ _ hs q hq0
-
-/-- the items `config.New` decodes for a section name: those of the last section so named, or
-none when the section is omitted (2aec039) -/
-def itemsOf (ss : List ASection) (name : List Char) : List AItem :=
-  match lookupSection ss name with
-  | some sec => sec.items
-  | none => []
 
 theorem decodeSpecs_defaults (S : Schema) (dec : Dec) (fuel : Nat) (ss : List ASection) :
     ∀ (specs : List SectionSpec) (st st' : Store), decodeSpecs S dec fuel ss specs st = .ok st' →
@@ -641,5 +639,45 @@ theorem configNew_default_http_method (S : Schema) (dec : Dec) (fuel : Nat) (ss 
   subst hleaf
   rw [hname, hkey] at hget
   exact applyPatches_http_kept dec st st' hpatch k c hget hv
+
+
+/-! ## a list written in section form (958eeab) -/
+
+theorem getStrs_put_self (st : Store) (p : Path) (vs : List (List Char)) : getStrs (st.put p (.strs vs)) p = vs := by
+  unfold getStrs; rw [Store.get?_put_self]
+
+/-- `StringListParser` appends the written items, in order, to what the field holds -/
+theorem stringListParser_value (p : Path) : ∀ (items : List AItem) (st st' : Store),
+    stringListParser p items st = .ok st' →
+    ∃ vs : List (List Char), items.map AItem.paramStr = vs.map some ∧ getStrs st' p = getStrs st p ++ vs := by
+  intro items
+  induction items with
+  | nil => intro st st' h; simp only [stringListParser, Except.ok.injEq] at h; subst h; exact ⟨[], rfl, by simp⟩
+  | cons it rest ih =>
+    intro st st' h
+    unfold stringListParser at h
+    split at h
+    · simp at h
+    · rename_i v hv
+      obtain ⟨vs, h1, h2⟩ := ih _ st' h
+      refine ⟨v :: vs, by simp [hv, h1], ?_⟩
+      rw [h2, getStrs_put_self]
+      simp
+
+/-- **A written list replaces the default.** The first section-form occurrence of a string-list
+key starts from the empty list (not from the pre-filled `default:` value): afterwards the field
+holds exactly the written items, in order. -/
+theorem sectionForm_list_replaces_default (S : Schema) (dec : Dec) (n : Nat) (sd : StructDef) (path : Path)
+    (name : List Char) (items rest : List AItem) (st : Store) (set : List (List Char)) (f : Field)
+    (hf : findField sd.fields name = some f) (hk : f.kind = .strList) (hns : set.contains name = false)
+    (st1 : Store) (h1 : stringListParser (sub path name) items (st.put (sub path name) (.strs [])) = .ok st1) :
+    paramItems S dec (n + 1) sd path (.sec name items :: rest) st set
+        = paramItems S dec (n + 1) sd path rest st1 (name :: set) ∧
+      ∃ vs : List (List Char), items.map AItem.paramStr = vs.map some ∧ getStrs st1 (sub path name) = vs := by
+  constructor
+  · rw [paramItems]
+    simp only [hf, hk, hns, Bool.not_false, and_self, if_true, sectionParser, h1]
+  · obtain ⟨vs, hv, hg⟩ := stringListParser_value (sub path name) items _ st1 h1
+    exact ⟨vs, hv, by rw [hg, getStrs_put_self]; simp⟩
 
 end DaeVerif.C17
